@@ -21,7 +21,8 @@ package singleflight
 // If the shape is ambiguous or different (two int fields none or both of which could be today's `dups`, an RWMutex,
 // a sync.Map, ...) the helpers
 // cannot know what to observe: start-up panics with a message that says what was looked for and what
-// was found; the driver exits non-zero and the check reports a broken correspondence — never a guess.
+// was found: VerifObservable() reports it, the driver records a broken correspondence — never a guess — and runs only
+// its free-running bursts, which need no observation of the group.
 
 import (
 	"fmt"
@@ -36,7 +37,24 @@ type verifShape struct {
 	dups, done uintptr      // offsets in <struct>
 }
 
-var verifLayout = verifResolveShape()
+var (
+	verifLayout   verifShape
+	verifShapeErr string // why the group's state cannot be observed ("" when it can)
+)
+
+func init() {
+	defer func() {
+		if r := recover(); r != nil {
+			verifShapeErr = fmt.Sprint(r)
+		}
+	}()
+	verifLayout = verifResolveShape()
+}
+
+// VerifObservable returns "" when the group's lock, map, counter and WaitGroup were located, otherwise
+// the reason why not. The driver then cannot realise schedules step by step (the correspondence is
+// broken and reported as such) and falls back to what needs no observation: free-running bursts.
+func VerifObservable() string { return verifShapeErr }
 
 func verifFieldList(t reflect.Type) string {
 	s := ""
